@@ -19,8 +19,9 @@ THEOREMS = [
     'C18_quote_one_string_token', 'C18_quote_one_string_token_lex', 'C18_quote_printable_ascii',
     'C18_evaluate_quote', 'C18_type_quote', 'C18_lone_surrogates_not_recovered',
     'C18_quote_num', 'C18_quote_none', 'C18_evaluate_total', 'C18_type_total',
-    'C18_number_only_for_json_number', 'C18_null_iff', 'C18_never_bool',
+    'C18_number_only_for_json_number', 'C18_number_complete', 'C18_null_iff', 'C18_never_bool',
     'C18_type_matches', 'C18_type_none', 'C18_example_roundtrip', 'C18_example_numbers',
+    'C18_example_grammar',
 ]
 
 # quote-side alphabet: quotes, backslash, escape letters, control chars, DEL, non-ASCII letter,
@@ -295,9 +296,8 @@ def _rstr(rng):
 
 def _rnum(rng):
     s = rng.choice(['', '', '-', '+', '--'])
-    # (the model's endswith reverses the text quadratically: keep the 4300-digit cases to about 1% of numbers)
     s += rng.choice(['0', '1', '9', '10', '123', '01', '00', '',
-                     '1' * (rng.choice([4299, 4300, 4301]) if rng.random() < .07 else rng.choice([5, 40]))])
+                     '1' * (rng.choice([4299, 4300, 4301]) if rng.random() < .2 else rng.choice([5, 40]))])
     s += rng.choice(['', '', '.', '.5', '.05', '.e', '.5.5'])
     s += rng.choice(['', '', 'e', 'e5', 'E5', 'e+5', 'e-5', 'E+', 'e5e5', 'e999', 'e+-5'])
     return s
@@ -452,11 +452,43 @@ def run(chk):
             chk.fail('quote-num', f'quote({a!r}) = {q!r} differs from quote(str(x)) = {constant.quote(str(a))!r}', case)
         if d_str(o) != q:
             chk.mismatch('quote(atom) differs', case, q, d_str(o))
+    kernel_crosscheck(chk, constant)
     if constant.evaluate(None) is not None or constant.type(None).value != 'Null':
         chk.fail('null', 'evaluate(None) / type(None) is not None / Null', {'text': None})
     out = common.run_driver('const', [[5, []]])
     if (d_result(out[0][0]), TYNAMES[out[0][1]]) != (('None',), 'Null'):
         chk.mismatch('evaluate(None)/type(None) differs', {'text': None}, ['None', 'Null'], out[0])
+
+
+def kernel_crosscheck(chk, constant):
+    """The same model evaluated by Coq's own VM (no extraction, no OCaml) on a small sample:
+    guards the extraction + driver glue."""
+    rng = chk.rng
+    texts = [s for s in SPECIALS + BOOL_LITERALS if len(s) <= 80] + [random_text(rng) for _ in range(60)]
+    texts = [s for s in texts if len(s) <= 80]
+    strings = ['', 'a"b\\', '\n\u2028\U0001F600\x00\x7f\u00e9', '\ud83d\ude00'] + [random_string(rng, 12) for _ in range(30)]
+    imports = ('From PM Require Import Impl.Lexer Impl.Constant.\nOpen Scope N_scope.\n'
+               'Definition enc_r (r : result) : list N := match r with RNull => [0] | RInt => [1] | RFloat => [2] '
+               '| RStr s => 3 :: s | RConstErr => [4] | RFuel => [5] end.\n'
+               'Definition enc_t (t : ty) : N := match t with TySymbol => 0 | TyString => 1 | TyInteger => 2 '
+               '| TyFloat => 3 | TyNull => 4 | TyConstErr => 5 | TyFuel => 6 end.\n'
+               'Definition enc (s : str) : list N := enc_t (ctype (Some s)) :: enc_r (evaluate (Some s)).\n')
+    lit = lambda s: '[' + ';'.join(str(ord(c)) for c in s) + ']'
+    exprs = [f'enc {lit(s)}' for s in texts] + [f'quote_str {lit(x)}' for x in strings]
+    raw = common.run_in_kernel('c18', imports, exprs)
+    vals = [[int(n) for n in re.findall(r'\d+', r)] for r in raw]
+    if len(vals) != len(exprs):
+        chk.broken.append({'obligation': 'in-kernel cross-check', 'detail': f'{len(vals)} results for {len(exprs)} terms'})
+        return
+    chk.stat('in_kernel_cases', len(exprs))
+    for s, v in zip(texts, vals):
+        m = (d_result([v[1], v[2:]]), TYNAMES[v[0]])
+        im = (impl_evaluate(s), impl_type(s))
+        if m != im:
+            chk.mismatch('in-kernel evaluate/type differs', {'text': s, 'stream': 'in-kernel'}, [list(im[0]), im[1]], [list(m[0]), m[1]])
+    for x, v in zip(strings, vals[len(texts):]):
+        if d_str(v) != constant.quote(x):
+            chk.mismatch('in-kernel quote differs', {'string': x, 'stream': 'in-kernel'}, constant.quote(x), d_str(v))
 
 
 def _run_job(job):
